@@ -178,11 +178,12 @@ func c13TLexer(w *core.W, depth int) {
 					w.Fail(string(b), sig, detail)
 					continue
 				}
-				if seen[key] {
-					continue
+				// every path is extended, also one that reaches a (readp, writep, snapshots) seen before: the key is
+				// what the hook shows of the state, and state it does not show must not be able to hide behind it
+				if !seen[key] {
+					seen[key] = true
+					states++
 				}
-				seen[key] = true
-				states++
 				if d == depth {
 					continue
 				}
@@ -665,7 +666,7 @@ func init() {
 	core.Register(&core.Check{
 		ID:    "C13",
 		Level: "model_checking",
-		Rule: "(a) breadth-first search over all sequences of Next/Snapshot/Rollback/Commit (Rollback/Commit only with an open snapshot) on the real TLexer for 8 inputs, deduplicated on (readp, writep, snapshot stack), every step compared with a fresh plain scan; plus, on a 700-token input, two nested snapshots opened at every 7th (3rd) position p1 and p2 = p1 + {1, 2, 5, 90, 255, 256, 257} and rolled back / committed from a dense set of later positions; " +
+		Rule: "(a) breadth-first search over all sequences of Next/Snapshot/Rollback/Commit (Rollback/Commit only with an open snapshot) on the real TLexer for 8 inputs, every path executed (states = distinct (readp, writep, snapshot stack), counted but not used for pruning), every step compared with a fresh plain scan; plus, on a 700-token input, two nested snapshots opened at every 7th (3rd) position p1 and p2 = p1 + {1, 2, 5, 90, 255, 256, 257} and rolled back / committed from a dense set of later positions; " +
 			"(b) every parser term built from Accept a, Accept b, Ok and And/Seq/OneOf/Choose/Any/SeparatedBy/SurroundedBy/Assert/Not/Drop/Fmap to depth 2 (quick: third argument of ternary combinators primitive) x all 121 token streams over {a,b,c} of length <= 4 x {bare, wrapped in OneOf(T, Ok)} x {real TLexer, list lexer}, compared with an ordered-choice recogniser on accept/reject, result list and input position left; " +
 			"states = distinct TLexer states; distinct_nontrivial = TLexer states + (term, stream, lexer) triples on which the term consumed input or failed after consuming",
 		Assumptions: []string{
